@@ -28,6 +28,32 @@ func (s *State) SetEntityAction(ea *vikjapb.EntityAction) {
 	entityActions[ea.Name] = ea
 }
 
+// SetEntityActionIfNotOlder stores the action unless one with a later
+// timestamp is stored under the same entity and name. The comparison and the
+// store are one critical section, so that of two concurrent actions the one
+// with the latest timestamp is kept whatever their order of arrival.
+func (s *State) SetEntityActionIfNotOlder(ea *vikjapb.EntityAction) bool {
+	s.entityActionMutex.Lock()
+	defer s.entityActionMutex.Unlock()
+
+	if s.entityActions == nil {
+		s.entityActions = make(map[uint32]map[string]*vikjapb.EntityAction)
+	}
+
+	entityActions, ok := s.entityActions[ea.EntityId]
+	if !ok {
+		entityActions = make(map[string]*vikjapb.EntityAction)
+		s.entityActions[ea.EntityId] = entityActions
+	}
+
+	if latest, ok := entityActions[ea.Name]; ok && ea.Timestamp.AsTime().Before(latest.Timestamp.AsTime()) {
+		return false
+	}
+
+	entityActions[ea.Name] = ea
+	return true
+}
+
 func (s *State) EntityAction(entityID uint32, actionName string) (*vikjapb.EntityAction, bool) {
 	s.entityActionMutex.RLock()
 	defer s.entityActionMutex.RUnlock()
